@@ -36,11 +36,7 @@ def run(ctx):
             X.run_cases(ctx, 'partitioned resize with thread-creation faults', pimpl, X.gen(ctx, pprogs, n // 2, 'C09p', pconfs), proto_driver=driver, nontrivial=lambda raw: ' create ' in raw)
         # lazy resize carried out by the library's work-queue thread (AUTO_RESIZE; the worker is thread 1 of the run), the table emptied and destroyed while the
         # resize is queued / running / just finished: everything the destruction releases is quarantined, so a late access of the worker is reported
-        acases = []
-        for prog in ('A3A4A6A9L3XL4XL6XL9XY', 'A4A6A3A9L9XL3XL6XL4XY'):
-            for j in range(0, 150 if ctx.quick() else 320, 2 if ctx.quick() else 1):
-                for k in (9, 7):       # the owner completes all (or all but the last two) of its remaining operations at once, after the worker has taken j steps
-                    acases.append((prog, '>0' * 5 + '1b' * j + '>0' * k + '1b' * 3 + '>0>0', ('1', '8', 'o', '0', '0', '1')))
+        acases = X.lazy_destroy_cases(ctx)
         X.run_cases(ctx, 'lazy resize by the work-queue thread, destroy of the emptied table', impl, acases, nontrivial=lambda raw: ' free tb' in raw)
         X.run_cases(ctx, 'automatic resize at the maximum bucket count (order / chunk / mmap allocators)', impl, X.auto_resize_bound_cases(ctx), nontrivial=nontrivial)
         X.run_cases(ctx, 'resize (chunk / mmap allocators, unbounded max)', impl, X.gen(ctx, PROGS, n // 2, 'C09x', OCONFS), nontrivial=nontrivial)
